@@ -57,15 +57,15 @@ func c10LoadInline(data []byte) (res c10Loaded) {
 }
 
 // c10Load runs the real loader under recover and under a watchdog: a load that does not return within
-// 10 s is the observation `hang` (its goroutine cannot be stopped and keeps spinning until the run ends).
+// 30 s is the observation `hang` (its goroutine cannot be stopped and keeps spinning until the run ends).
 func c10Load(data []byte) c10Loaded {
 	ch := make(chan c10Loaded, 1)
 	go func() { ch <- c10LoadInline(data) }()
 	select {
 	case r := <-ch:
 		return r
-	case <-time.After(10 * time.Second):
-		return c10Loaded{out: "hang", msg: "LoadAndValidate did not return within 10 s"}
+	case <-time.After(30 * time.Second):
+		return c10Loaded{out: "hang", msg: "LoadAndValidate did not return within 30 s"}
 	}
 }
 
@@ -189,6 +189,10 @@ func c10RunDoc(c *Case, d c10Doc, policy string) string {
 		c.Op("panic-bytes "+hex.EncodeToString(y), ly.out+"/"+lj.out+": "+ly.msg+lj.msg)
 	}
 	c.Oracle(fmt.Sprintf("same yaml=%s json=%s", c10LoadedDigest(ly), c10LoadedDigest(lj)))
+	// a second YAML spelling of the same document: document markers, a comment, a trailing end marker
+	ly2 := c10Load([]byte("---\n# generated\n" + string(y) + "...\n"))
+	c.Oracle("nopanic out=" + ly2.out)
+	c.Oracle(fmt.Sprintf("same yaml=%s json=%s", c10LoadedDigest(ly2), c10LoadedDigest(lj)))
 	if ly.out != "ok" {
 		c.Note("verdict:" + ly.out)
 		return ly.out
@@ -858,6 +862,24 @@ func runC10(r *Run) {
 	nFault := r.N(1400, 14000)
 	r.Cases(200000, nFault, 0, func(c *Case, rng *Rng) {
 		c.Nontrivial = true
+		if rng.Chance(8) {
+			// v0 faults
+			d := c10GenDocV0(rng)
+			fault := PickOne(rng, []string{"v0-bad-event", "v0-bad-crontab", "v0-zero-step"})
+			switch fault {
+			case "v0-bad-event":
+				d.Kubes0 = append(d.Kubes0, c10Kube0{Kind: "pod", Events: []string{"add", PickOne(rng, []string{"Added", "create", "", "ADD"})}})
+			case "v0-bad-crontab":
+				d.Scheds = append(d.Scheds, c10Sched{Crontab: PickOne(rng, []string{"61 * * * *", "x", "* * *"})})
+			default:
+				d.Scheds = append(d.Scheds, c10Sched{Crontab: PickOne(rng, []string{"*/0 * * * *", "* */00 * * *"})})
+			}
+			c.Desc = "typed fault " + fault
+			c.Note("fault:" + fault)
+			v := c10RunDoc(c, d, policy)
+			c.Oracle(fmt.Sprintf("reject fault=%s verdict=%s", fault, v))
+			return
+		}
 		if rng.Chance(45) {
 			fault := c10TypedFaults[(c.Idx-200000)%len(c10TypedFaults)]
 			d := c10GenDoc(rng, c10GenOpts{needKube: true, needSched: true, needVal: true, needUniqueKubes: true})
